@@ -864,6 +864,10 @@ snarf_fld(struct ical_vevent_s ve[static 1U],
 		with (echs_instant_t i = snarf_dt(eof, vp, ep)) {
 			switch (fld) {
 			case FLD_DTSTART:
+				if (!echs_nul_instant_p(ve->from)) {
+					/* only the first start wins */
+					break;
+				}
 				ve->from = i;
 				break;
 			case FLD_COMPL:
@@ -2344,6 +2348,56 @@ instant_soup(echs_instant_t broth, echs_instant_t water, echs_tzob_t z, int eof)
 	return soup;
 }
 
+/* RDATE lists are vevent streams with a serialiser of their own */
+static echs_evstrm_t clone_evrdat(echs_const_evstrm_t);
+static void send_evrdat(int whither, echs_const_evstrm_t s);
+
+static const struct echs_evstrm_class_s evrdat_cls = {
+	.next = next_evical_vevent,
+	.free = free_evical_vevent,
+	.clone = clone_evrdat,
+	.seria = send_evrdat,
+};
+
+static echs_evstrm_t
+clone_evrdat(echs_const_evstrm_t s)
+{
+	struct evical_s *res = (struct evical_s*)clone_evical_vevent(s);
+
+	if (LIKELY(res != NULL)) {
+		res->class = &evrdat_cls;
+	}
+	return (echs_evstrm_t)res;
+}
+
+static void
+send_evrdat(int whither, echs_const_evstrm_t s)
+{
+/* the instants not handed out yet, as DTSTART (in case we are all the
+ * event has, the reader goes by the first DTSTART) and RDATE list */
+	const struct evical_s *this = (const struct evical_s*)s;
+	char stmp[32U];
+
+	if (UNLIKELY(this->i >= this->nev)) {
+		return;
+	}
+	send_ev(whither, this->ev[this->i], 0U);
+	fdwrite("RDATE", strlenof("RDATE"));
+	if (echs_instant_all_day_p(this->ev[this->i].from)) {
+		fdwrite(";VALUE=DATE", strlenof(";VALUE=DATE"));
+	}
+	for (size_t j = this->i; j < this->nev; j++) {
+		const echs_instant_t x =
+			echs_instant_detach_scale(this->ev[j].from);
+		const size_t n = dt_strf_ical(stmp, sizeof(stmp), x);
+
+		fdputc(j > this->i ? ',' : ':');
+		fdwrite(stmp, n);
+	}
+	fdputc('\n');
+	return;
+}
+
 static echs_evstrm_t
 __make_evrdat(echs_event_t e, const echs_instant_t *d, size_t nd)
 {
@@ -2406,7 +2460,7 @@ __make_evrdat(echs_event_t e, const echs_instant_t *d, size_t nd)
 		}
 	}
 	/* just the rest of the book-keeping */
-	res->class = &evical_cls;
+	res->class = &evrdat_cls;
 	res->i = 0U;
 	res->nev = nd;
 	return (echs_evstrm_t)res;
